@@ -249,6 +249,17 @@ func c09Run(w *core.W, j int, exact bool) {
 			mm.Ar = append(mm.Ar[:pos], append([]*model.Rec{opt}, mm.Ar[pos:]...)...)
 		}
 	}
+	if g.R.IntN(4) == 0 {
+		// TXT-family records without any string (RDLENGTH 0), anywhere in the reply
+		for x := 1 + g.R.IntN(3); x > 0; x-- {
+			e := &model.Rec{Owner: g.Name(), Type: []uint16{16, 99}[g.R.IntN(2)], Class: 1, TTL: 60, Vals: []any{[][]byte{}}}
+			e.L = model.Layouts[e.Type]
+			sec := []*[]*model.Rec{&mm.An, &mm.Ns, &mm.Ar}[g.R.IntN(3)]
+			pos := g.R.IntN(len(*sec) + 1)
+			*sec = append((*sec)[:pos], append([]*model.Rec{e}, (*sec)[pos:]...)...)
+		}
+		w.Count("replies_with_empty_txt", 1)
+	}
 	mm.Bits |= 0x8000
 	if g.R.IntN(4) == 0 {
 		mm.Bits |= 0x0200 // TC already set
